@@ -21,11 +21,13 @@ Q == R(1, 4)
 InsArg(s) == \* one insertion per direction
   {<<[e \in 1..PDim(s) |-> IF e = d THEN Q ELSE None], [e \in 1..PDim(s) |-> IF e = d THEN 1 ELSE 0]>> : d \in 1..PDim(s)}
 Vec(s) == LET d == CDim(s) - (IF s.rat THEN 1 ELSE 0) IN [k \in 1..d |-> RI(k)]
+\* at most two refining calls per history (their rational results grow; TLC integers are 32-bit)
+NumRefining == Cardinality({i \in 1..Len(hist) : hist[i].a \in {"insert", "refine"}})
 Next == /\ Len(hist) < DepthOf(sh0)
         /\ \/ \E v \in ViewsOf(obj) : ARead(v)
-           \/ \E a \in InsArg(obj) : AInsert(a[1], a[2])
+           \/ NumRefining < 2 /\ \E a \in InsArg(obj) : AInsert(a[1], a[2])
            \/ \E d \in 1..PDim(obj) : Mult(Q, obj.kv[d]) > 0 /\ ARemove(d, Q, 1)
-           \/ ARefine([e \in 1..PDim(obj) |-> IF e = 1 THEN 1 ELSE 0])
+           \/ NumRefining < 2 /\ ARefine([e \in 1..PDim(obj) |-> IF e = 1 THEN 1 ELSE 0])
            \/ AReverse \/ ATranspose \/ AFlip
            \/ ASetCtrlpts(1) \/ ASetWeights(1) \/ AScaleWeights(RI(2))
            \/ ATranslate(Vec(obj))
